@@ -97,7 +97,8 @@ def fan_out(data):
 def fan_out_label_ok(label):
     """debug profile: skip the fan-out bombs that take minutes with debug assertions on"""
     m = re.search(r"fan-out (\d+)\^(\d+)", label)
-    return not (m and int(m.group(2)) > 8) and 'fanout' not in label
+    # ... and the arc witness, which hangs in every profile (one time limit in the release pass is enough)
+    return not (m and int(m.group(2)) > 8) and 'fanout' not in label and 'arc-huge' not in label
 
 
 def f32_bound_class(data):
@@ -308,7 +309,8 @@ def run(ctx):
     for _ in range(ncross):
         jobs.append((rng.choice(light_idx), rng.choice(G.OPTION_SETS[1:])))
     rng.shuffle(jobs)
-    hjobs = [(i, '-') for i in heavy_idx] + [(i, rng.choice(G.OPTION_SETS[1:])) for i in heavy_idx if inputs[i][1] != 'bomb']
+    hjobs = [(i, '-') for i in heavy_idx] + [(i, rng.choice(G.OPTION_SETS[1:])) for i in heavy_idx
+                                             if inputs[i][1] != 'bomb' and '/corpus/c0' not in inputs[i][2]]
     ctx.log("e2e inputs: %d documents, %d + %d (document, options) jobs" % (len(inputs), len(jobs), len(hjobs)))
 
     hist = {}
@@ -384,6 +386,7 @@ def run(ctx):
             sub = jobs
         items = ["%s\t%s" % (o, inputs[i][2]) for i, o in sub]
         outs = ctx.rvh_batch(bins[prof], 'c01-parse', items, per_item_timeout=2 if prof == 'release' else 4, chunk=8)
+        ctx.log("%s: %d light jobs done" % (prof, len(sub)))
         for (i, o), res_ in zip(sub, outs):
             judge(prof, i, o, res_)
             if len(ctx.violations) > 12:
@@ -392,6 +395,7 @@ def run(ctx):
         hsub = hjobs if prof == 'release' else [j for j in hjobs if fan_out_label_ok(inputs[j[0]][0])]
         hitems = ["%s\t%s" % (o, inputs[i][2]) for i, o in hsub]
         houts = ctx.rvh_batch(bins[prof], 'c01-parse', hitems, per_item_timeout=20 if prof == 'release' else 45, chunk=1)
+        ctx.log("%s: %d heavy jobs done" % (prof, len(hsub)))
         for (i, o), res_ in zip(hsub, houts):
             judge(prof, i, o, res_)
         if len(ctx.violations) > 12:
